@@ -117,8 +117,6 @@ HANDLER_RULES = [
     Rule("R1", "$x . as_ref ( ) . clone ( )", "clone_prim ( & * $x )", why="Box<Primitive> clone"),
     Rule("R1", "$x . as_ref ( ) . to_owned ( )", "clone_prim ( & * $x )", why="Box<Primitive> clone"),
     Rule("R1", "bool ! ( $$e )", "Primitive :: Bool ( $$e )", why="bool! shorthand"),
-    Rule("R9", "$a == Primitive :: $v ( $$e )", "prim_equal ( & $a , & Primitive :: $v ( $$e ) )", why="derived PartialEq of Primitive (different variants are never equal)"),
-    Rule("R9", "$a != Primitive :: $v ( $$e )", "! prim_equal ( & $a , & Primitive :: $v ( $$e ) )", why="derived PartialEq of Primitive"),
     Rule("R1", "name . to_owned ( )", "clone_vs ( name )", why="String clone"),
 ]
 
@@ -781,3 +779,49 @@ fn main() {{}}
 U_ASSERT = VUnit("c01_assert", ["C01", "C17", "C02"], "assert handler", build_assert)
 U_ASSERT.assumes = ["Primitive::equals against `true` is abstract (true / false on bools); heap pointers abstract"]
 UNITS.append(U_ASSERT)
+
+
+# =====================================================================================================================
+# C08 / C13: `ptr_mut` -- `obj.field = v`, `xs[i] = v`, `m[k] = v`
+def build_ptr_mut(repo):
+    src = Source(repo)
+    log = []
+    names = ["pop", "stack_size"]
+    ctx = ctx_impl(src, log, names)
+    b = handler(src, log, "ptr_mut", [
+        Rule("R13", "vec_ptr . set ( new_val ) ?", "vec_ptr . set ( new_val , writes ) ?", why="write through the pointer recorded in an explicit write log (HeapPrimitive::set itself: obligation C08.ptr.set)"),
+    ])
+    gen = header(log, f"{INSTR}: ptr_mut; {CTXF}: Ctx::pop, Ctx::stack_size") + prelude("ctx.rs") + ctx + f"""
+// every write through a pointer, in order: which pointer, which value
+#[verifier::external_body] pub struct Writes {{ x: usize }}
+pub uninterp spec fn written(w: &Writes) -> Seq<(HeapV, Primitive)>;
+impl HeapV {{
+    #[verifier::external_body] pub fn set(&self, v: Primitive, w: &mut Writes) -> (r: Result<(), VErr>)
+        ensures r is Ok ==> written(final(w)) == written(old(w)).push((*self, v)), r is Err ==> written(final(w)) == written(old(w)) {{ unimplemented!() }}
+    // what the slot holds now (HeapPrimitive::to_owned_primitive): uninterpreted
+    #[verifier::external_body] pub fn to_owned_primitive(&self) -> (r: Result<Primitive, VErr>) ensures r is Ok ==> heap_deref(self) == Some(r->Ok_0) {{ unimplemented!() }}
+}}
+
+//@ OBL C08.handler.ptr_mut
+// `place = v` with the place's pointer and v on the stack: exactly one write, of exactly v, through exactly that pointer -- whatever
+// the slot held before (an equal-looking value is still another value: lists and maps are compared by content, objects by identity)
+pub fn ptr_mut(ctx: &mut Ctx, _args: &Vec<VString>, writes: &mut Writes) -> (r: Result<(), VErr>)
+    ensures
+        r is Ok ==> ({{ let s = old(ctx).stack@; let n = s.len() as int;
+            n >= 2 && s[n - 2] is HeapPrimitive && final(ctx).stack@ == s.subrange(0, n - 2)
+            && written(final(writes)) == written(old(writes)).push((s[n - 2]->HeapPrimitive_0, s[n - 1])) }}),
+        r is Err ==> written(final(writes)) == written(old(writes)),
+        rest(final(ctx)) == rest(old(ctx)),
+{{
+{render(b, 1)}
+}}
+}} // verus!
+fn main() {{}}
+"""
+    obls = ctx_obls(names, ["C08"]) + [Obl("C08.handler.ptr_mut", ["C08", "C13"], fn="ptr_mut", desc="ptr_mut: exactly one write, of exactly the popped value, through exactly the popped pointer, unconditionally")]
+    return gen, obls, log
+
+
+U_PTRMUT = VUnit("c08_ptr_mut", ["C08", "C13"], "ptr_mut handler: field / element / entry assignment", build_ptr_mut)
+U_PTRMUT.assumes = ["HeapPrimitive::set is an abstract callee here (its effect on the heap: obligation C08.ptr.set)"]
+UNITS.append(U_PTRMUT)
